@@ -65,6 +65,20 @@ class Mon(Driver):
         w = World(job)
         w.unlocked = set()
         w.lock0 = w.cs.state.lock
+
+        # an application thread may ask "how much is pending?" at ANY moment: query action Q = change_count + busy
+        def action(world, a):
+            world.in_engine = "APP"
+            try:
+                world.cs.change_count
+                world.cs.busy
+                world.cs.smgr.change_count(unverified=True)
+            except ex.CloudException:
+                pass
+            finally:
+                world.in_engine = None
+        w.hooks["actions"] = lambda world: ["Q"]
+        w.hooks["action"] = action
         return w
 
     def pre_step(self, w, a):
